@@ -21,6 +21,8 @@ UN = ["cast_alt", "cast_swap", "cast_check", "cast_dupif", "cast_verify", "cast_
       "cast_true", "cast_unlikely", "cast_likely"]
 BIN = ["and_b", "and_v", "or_b", "or_d", "or_c", "or_i"]
 CONST = ["FALSE", "TRUE", "sha256", "hash256", "ripemd160", "hash160"]
+FRAGS = {"pk_k", "pk_h", "raw_pk_h", "after", "older", "sha256", "hash256", "ripemd160", "hash160", "a", "s", "c", "d", "v", "j", "n",
+         "and_v", "and_b", "andor", "or_b", "or_d", "or_c", "or_i", "thresh", "multi", "sortedmulti", "multi_a", "sortedmulti_a"}
 
 
 def sizes(tier):
@@ -365,25 +367,27 @@ def attribute(need_attr):
             idx[k] = len(uniq)
             uniq.append(a)
         a["_u"] = idx[k]
-    uniq = uniq[:400]
-    lines = ["From Verif Require Import ExtCasesDefs.\nLocal Open Scope N_scope.\n"]
-    items = []
-    for a in uniq:
-        if a["shape"] is not None:
-            items.append("attr_weight %s %d" % (a["shape"], a["measured"]))
-        elif a["field"] == 3:
-            items.append("filter (fun b => pk_cost (ext_of_gen (fixes_of_mask b) (cx %s) %s) =? %d) masks16" % (CTX[a["ctx"]], ms_coq(a["ms"].split()), a["measured"]))
-        else:
-            items.append("attr_ms %s %s %d %d" % (CTX[a["ctx"]], ms_coq(a["ms"].split()), a["field"], a["measured"]))
-    lines.append("Definition answers : list (list N) := [\n%s].\n" % ";\n".join(items))
-    lines.append("Eval vm_compute in answers.\n")
-    path = os.path.join(vlib.COQ, "Tables", "ExtAttrGen.v")
-    open(path, "w").write("".join(lines))
-    p = vlib.coqc("Tables/ExtAttrGen.v")
-    if p.returncode != 0:
-        raise RuntimeError("attribution file does not compile: " + (p.stderr or p.stdout)[-1500:])
-    m = re.search(r"=\s*(\[.*\])\s*:\s*list \(list N\)", p.stdout, flags=re.S)
-    val = json.loads(re.sub(r"\s+", "", m.group(1)).replace(";", ","))
+    val = []
+    for off in range(0, len(uniq), 300):
+        chunk = uniq[off:off + 300]
+        lines = ["From Verif Require Import ExtCasesDefs.\nLocal Open Scope N_scope.\n"]
+        items = []
+        for a in chunk:
+            if a["shape"] is not None:
+                items.append("attr_weight %s %d" % (a["shape"], a["measured"]))
+            elif a["field"] == 3:
+                items.append("filter (fun b => pk_cost (ext_of_gen (fixes_of_mask b) (cx %s) %s) =? %d) masks16" % (CTX[a["ctx"]], ms_coq(a["ms"].split()), a["measured"]))
+            else:
+                items.append("attr_ms %s %s %d %d" % (CTX[a["ctx"]], ms_coq(a["ms"].split()), a["field"], a["measured"]))
+        lines.append("Definition answers : list (list N) := [\n%s].\n" % ";\n".join(items))
+        lines.append("Eval vm_compute in answers.\n")
+        path = os.path.join(vlib.COQ, "Tables", "ExtAttrGen.v")
+        open(path, "w").write("".join(lines))
+        p = vlib.coqc("Tables/ExtAttrGen.v")
+        if p.returncode != 0:
+            raise RuntimeError("attribution file does not compile: " + (p.stderr or p.stdout)[-1500:])
+        m = re.search(r"=\s*(\[.*\])\s*:\s*list \(list N\)", p.stdout, flags=re.S)
+        val += json.loads(re.sub(r"\s+", "", m.group(1)).replace(";", ","))
     res = []
     for a in need_attr:
         if a["_u"] >= len(val):
@@ -417,8 +421,11 @@ def run_traces(hbin, seed, n):
     bad, summary, hist = [], {}, {}
     for line in p.stdout.splitlines():
         if line.startswith("BAD C09"):
-            d = {k: v for k, v in re.findall(r"(\w+)=(\S+)", line.split(" desc=")[0])}
+            head = line.split(" ms=")[0] if " ms=" in line else line.split(" desc=")[0]
+            d = {k: v for k, v in re.findall(r"(\w+)=(\S+)", head)}
             d["desc"] = line.split(" desc=", 1)[1] if " desc=" in line else ""
+            mm = re.search(r" ms=(.*?) desc=", line)
+            d["ms"] = mm.group(1) if mm else None
             bad.append(d)
         elif line.startswith("SUMMARY"):
             summary = {k: int(v) for k, v in re.findall(r"(\w+)=(\d+)", line)}
@@ -511,24 +518,41 @@ def run(rep, tier, seed, replay):
     # ---- execution figures: opcode count and stack depth on the extracted instrumented semantics
     n_tr = n_tr_replay or (6000 if tier == "thorough" else 500)
     tbad, tsum, thist = run_traces(hbin, seed, n_tr)
+    KCTX = {"wsh": "segwitv0", "shwsh": "segwitv0", "sh": "legacy", "bare": "bare", "tr": "tap"}
+    tr_attr = []
     for b in tbad:
         what = b.get("what")
         if what == "stackdepth":
-            over = int(b["measured"]) - int(b["max_witness_stack_count"]) - int(b["max_exec_stack_count"])
-            key = "exec-stack:multi-num-pushes" if ("multi(" in b["desc"] and over <= 2) else "exec:stackdepth"
+            field, nm, meas = 4, "stack depth", int(b["measured"])
+            fig = int(b["max_witness_stack_count"]) + int(b["max_exec_stack_count"])
             msg = "stack+altstack depth %s > max_witness_stack_count %s + max_exec_stack_count %s" % (
                 b["measured"], b["max_witness_stack_count"], b["max_exec_stack_count"])
         elif what == "opcount":
-            key = "exec:opcount"
+            field, nm, meas = 5, "opcode count", int(b["measured"])
+            fig = int(b["static_ops"]) + int(b["max_exec_op_count"])
             msg = "executed-opcode count %s > static_ops %s + max_exec_op_count %s" % (b["measured"], b["static_ops"], b["max_exec_op_count"])
         else:
-            key = "exec:no-figure"
+            field, nm, meas, fig = 0, "satisfaction figure", 0, None
             msg = "a satisfaction executes although the leaf has no satisfaction figure"
-        before = len(rep.violations)
-        rep.violation(key, "%s on %s [%s, keymask %s, premask %s]" % (msg, b["desc"], b.get("mode"), b.get("keymask"), b.get("premask")),
-                      dict(b, property="C09", engine="sat | driver_ext", engine_args=[seed, n_tr],
-                           failed_clause="measured on the execution trace <= the library's figure"), True)
-        found_real = found_real or len(rep.violations) > before
+        tr_attr.append({"what": nm, "field": field, "ctx": KCTX[b["kind"]], "ms": b["ms"], "figure": fig, "measured": meas, "shape": None,
+                        "msg": msg, "input": dict(b, property="C09", engine="sat | driver_ext", engine_args=[seed, n_tr], quantity=nm,
+                                                  failed_clause="measured on the execution trace <= the library's figure")})
+    for a, comps, masks in attribute(tr_attr):
+        if comps[0].endswith(":unexplained") and a["what"] == "stack depth" and a["ms"] and a["figure"] is not None:
+            # number pushes the rules do not count: k and n of multi (2 per fragment), k / running sum of thresh (1 per fragment)
+            over = a["measured"] - a["figure"]
+            toks = a["ms"].split()
+            n_multi = sum(1 for t in toks if t in ("multi", "sortedmulti"))
+            n_thresh = sum(1 for t in toks if t == "thresh")
+            if n_multi and over <= 2 * n_multi:
+                comps = ["exec-stack:multi-num-pushes"]
+            elif over <= 2 * n_multi + n_thresh:
+                comps = (["exec-stack:multi-num-pushes"] if n_multi else []) + ["exec-stack:thresh"]
+        for key in comps:
+            before = len(rep.violations)
+            rep.violation(key, "%s on %s [%s, keymask %s, premask %s]" % (a["msg"], a["input"]["desc"], a["input"].get("mode"), a["input"].get("keymask"), a["input"].get("premask")),
+                          dict(a["input"], repairs_that_cover=masks), True)
+            found_real = found_real or len(rep.violations) > before
     st["traces/executed"] = tsum.get("traced", 0)
     st["compared"] += 2 * tsum.get("traced", 0)
 
@@ -558,7 +582,7 @@ def run(rep, tier, seed, replay):
     for t in T:
         hist["ctx/" + t["ctx"]] += 1
         for tok in t["dump"].split():
-            if not tok[0].isdigit() and tok != "-":
+            if tok in FRAGS:
                 hist["frag/" + tok] += 1
     for _, _, name in rules:
         hist["rule/" + name] += 1
